@@ -579,9 +579,9 @@ macro_rules! trace_mod {
                 54 => Op::Iter(rng.below(3) as u8, rand_pat(&mut rng, clen)),
                 55 => Op::Drain(rand_pat(&mut rng, clen), false),
                 56 => Op::TryReserve(rng.pick(&[0usize, 1, 5, 40, usize::MAX, usize::MAX / 2, 1 << 40]), rng.below(3) == 0),
-                57 => Op::ShrinkTo(rng.pick(&[0usize, 1, 4, 26, 27, 100])),
+                57 => Op::ShrinkTo(rng.pick(&[0usize, 1, 4, 26, 27, 100, usize::MAX, usize::MAX / 2])),
                 58 => Op::ShrinkToFit,
-                59 => Op::Reserve(rng.pick(&[0usize, 1, 7, 30])),
+                59 => Op::Reserve(if rng.below(40) == 0 { rng.pick(&[usize::MAX, usize::MAX / 2 + 1]) } else { rng.pick(&[0usize, 1, 7, 30]) }),
                 60 => Op::Clear,
                 61 => Op::Debug, 62 => Op::Len, 63 => Op::IsEmpty, 64 => Op::CurrentSize, 65 => Op::MaxSize, 66 => Op::Capacity,
                 67..=69 => { // clone into a free slot (dropping an old clone first)
